@@ -6,7 +6,7 @@ from hypothesis import strategies as st
 from lib import gens, refids
 from lib.runner import Stage, Violation, hyp_drive
 
-RULE = ("(list of cells with repeats in any order, target t): resolutions -1..29, t in 0..29, total expansion <= 4^7; a class of contiguous runs (slices of a cell's descendants starting anywhere, with gaps); a "
+RULE = ("(list of cells with repeats in any order, target t): resolutions -1..29, t in 0..29, total expansion <= 4^7 (plus a stage of outputs of 65 000-400 000 cells); a class of contiguous runs (slices of a cell's descendants starting anywhere, with gaps); a "
         "further class has one element (first/middle/last) finer than t and must raise. Oracle: output = concatenation in "
         "input order of blocks of refids.nchildren(res,t) ids, each block a permutation of the reference descendants, "
         "all of res t, each mapping back through cell_to_parent; length = sum of get_num_children; argument unchanged. "
@@ -130,6 +130,27 @@ def cases(draw):
     return case
 
 
+def stage_large(ctx):
+    """A few outputs of 65 000 - 400 000 cells (pre-sizing, chunking and bulk paths live up there): one or two cells
+    8-9 levels above the target mixed with cells already at the target and one level above, in several orders."""
+    import itertools as _it
+    ts = [10, 13, 21, 29] if ctx.tier == "quick" else [9, 10, 11, 13, 17, 21, 25, 28, 29]
+    jobs = []
+    for t in ts:
+        big = refids.enc(t - 8, (t * 5) % 12, t % 5, (4 ** (t - 9)) // 3 if t - 9 > 0 else 0)
+        big2 = refids.enc(t - 8, (t * 7 + 3) % 12, (t + 2) % 5, 1 if t - 9 > 0 else 0)
+        bigger = refids.enc(t - 9, 3, 1, 0) if t - 9 >= 2 else None
+        same = refids.enc(t, 1, 2, (4 ** (t - 1)) // 5)
+        near = refids.enc(t - 1, 2, 3, (4 ** (t - 2)) // 7)
+        for cells in ([big, same], [same, big, same, near], [big, big2, same], [near, big, near, same, same]):
+            jobs.append((cells, t))
+        if bigger is not None and ctx.tier == "thorough":
+            jobs.append(([bigger, same, near], t))
+    for cells, t in jobs[ctx.shard::ctx.nshards]:
+        case = {"cells": [hex(c) for c in cells], "t": t, "large": True}
+        judge(case, ctx.col)
+
+
 def stage_hyp(ctx):
     hyp_drive(ctx, cases(), judge, 700 if ctx.tier == "quick" else 5000)
 
@@ -160,7 +181,7 @@ def stage_fuzz(ctx):
 
 
 def plan(tier):
-    s = [Stage("hyp", 16, stage_hyp, cost=5)]
+    s = [Stage("hyp", 16, stage_hyp, cost=5), Stage("large", 16, stage_large, cost=7)]
     if tier == "thorough":
         s.append(Stage("fuzz", 4, stage_fuzz, cost=6))
     return s
